@@ -153,6 +153,8 @@ def _setup_py(spec):
                 L.append("requires = tuple(%r)" % spec["requires"])
             else:
                 L.append("from helper_mod import REQUIRES as requires")
+            if spec.get("cond_dir"):
+                L.append("if os.path.exists(os.path.join(here, %r)):\n    requires = list(requires.split('\\n') if isinstance(requires, str) else requires) + ['dirdep>=1']" % spec["cond_dir"])
             kw.append("install_requires=requires")
             extras = dict(spec["extras"])
             extras.update(spec.get("marker_extra", {}))
@@ -277,6 +279,8 @@ def declared(spec):
     reqs = []
     for r in spec["requires"]:
         reqs.append(str(GL.P(r)))
+    if spec.get("cond_dir") and spec["style"] == "kwargs":
+        reqs.append("dirdep>=1")      # the directory is part of every generated project
     extras = dict(spec["extras"])
     if spec["style"] == "kwargs":
         extras.update(spec.get("marker_extra", {}))
